@@ -165,6 +165,57 @@ theorem errors (nets : List Net) :
         intro n hn
         simpa using hsame n (List.mem_cons_of_mem _ hn)
 
+/-- **C13 on the function the driver op `span_nets` runs**: for two or more valid networks of
+    one family the wrapper returns a valid, host-bit-free network of that family that contains
+    every input, and every block containing all inputs has a prefix length `<=` the result's. -/
+theorem spanning_nets_spec (a b : Net) (rest : List Net) (hwf : ∀ n ∈ a :: b :: rest, n.WF)
+    (hver : ∀ n ∈ a :: b :: rest, n.ver = a.ver) :
+    ∃ r, spanningCidrNets (a :: b :: rest) = .ok r ∧ r.WF ∧ r.ver = a.ver ∧ r.first = r.val ∧
+      (∀ n ∈ a :: b :: rest, r.first ≤ n.first ∧ n.last ≤ r.last) ∧
+      (∀ c : Net, c.WF → c.ver = a.ver → (∀ n ∈ a :: b :: rest, c.first ≤ n.first ∧ n.last ≤ c.last) →
+        c.plen ≤ r.plen) := by
+  obtain ⟨p, hp, hres⟩ := (errors (a :: b :: rest)).2.2 a b rest rfl hver
+  have hwf' : ∀ n ∈ (⟨a.val, a.plen⟩ : Pfx) :: ⟨b.val, b.plen⟩ :: rest.map (fun n => (⟨n.val, n.plen⟩ : Pfx)),
+      PfxWF (width a.ver) n := by
+    intro n hn
+    have : n ∈ (a :: b :: rest).map (fun n => (⟨n.val, n.plen⟩ : Pfx)) := by simpa using hn
+    obtain ⟨m, hm, rfl⟩ := List.mem_map.1 this
+    obtain ⟨_, h1, h2⟩ := hwf m hm
+    rw [hver m hm] at h1 h2
+    exact ⟨h1, h2⟩
+  obtain ⟨r, hr, s1, s2, s3, s4, s5, s6⟩ := spanning_spec (width a.ver) ⟨a.val, a.plen⟩ ⟨b.val, b.plen⟩
+    (rest.map (fun n => (⟨n.val, n.plen⟩ : Pfx))) hwf'
+  have hpr : p = r := by
+    have e : (a :: b :: rest).map (fun n => (⟨n.val, n.plen⟩ : Pfx)) =
+        ⟨a.val, a.plen⟩ :: ⟨b.val, b.plen⟩ :: rest.map (fun n => (⟨n.val, n.plen⟩ : Pfx)) := by simp
+    rw [e, hr] at hp; cases hp; rfl
+  subst hpr
+  have hmem : ∀ n ∈ a :: b :: rest, (⟨n.val, n.plen⟩ : Pfx) ∈
+      (⟨a.val, a.plen⟩ : Pfx) :: ⟨b.val, b.plen⟩ :: rest.map (fun n => (⟨n.val, n.plen⟩ : Pfx)) := by
+    intro n hn
+    have : (⟨n.val, n.plen⟩ : Pfx) ∈ (a :: b :: rest).map (fun n => (⟨n.val, n.plen⟩ : Pfx)) :=
+      List.mem_map.2 ⟨n, hn, rfl⟩
+    simpa using this
+  refine ⟨⟨a.ver, p.val, p.plen⟩, hres, ⟨(hwf a (List.mem_cons_self ..)).1, s2, s1⟩, rfl, s4, ?_, ?_⟩
+  · intro n hn
+    have := s5 _ (hmem n hn)
+    unfold Net.first Net.last
+    rw [hver n hn]
+    exact this
+  · intro c hc hcv hcov
+    obtain ⟨_, c1, c2⟩ := hc
+    rw [hcv] at c1 c2
+    apply s6 c.plen c.val c2 c1
+    intro n hn
+    obtain ⟨m, hm, rfl⟩ : ∃ m ∈ a :: b :: rest, n = (⟨m.val, m.plen⟩ : Pfx) := by
+      have : n ∈ (a :: b :: rest).map (fun n => (⟨n.val, n.plen⟩ : Pfx)) := by simpa using hn
+      obtain ⟨m, hm, e⟩ := List.mem_map.1 this
+      exact ⟨m, hm, e.symm⟩
+    have := hcov m hm
+    unfold Net.first Net.last at this
+    rw [hcv, hver m hm] at this
+    exact this
+
 /-- order / repetition invariance on the wrapper, errors included: two sequences of length
     >= 2 with the same members give the same result or the same error -/
 theorem nets_perm_dup_invariant (l l' : List Net) (h2 : 2 ≤ l.length) (h2' : 2 ≤ l'.length)
